@@ -172,3 +172,24 @@ PROPS["C20"] = {
     "quick": [rapid("meta", "^TestPropMeta$", 1500, shards=3)],
     "thorough": [rapid("meta", "^TestPropMeta$", 15000, shards=10)],
 }
+
+PROPS["C16"] = {
+    "pkg": "c16",
+    "level": "exploration",
+    "replay_race": True,
+    "rule": ("Metamorphic. Baseline = decoded entries (names, order, type, mode, mtime, link target, body) of Pack(clean absolute path) from "
+             "cwd '/'. (1) spelling: 21 variants per generated tree - relative spellings from the parent, from inside the tree and from an "
+             "unrelated cwd, trailing slash, '.'/'..' segments, doubled slashes, and the directory reached through a symlink with absolute "
+             "target, with a target relative to the link's directory (from several cwds), a chain of two links, link + trailing slash. (2) "
+             "history: 0-5 earlier operations on the same Packer value (Packs of other trees incl. rule files starting with a negation, many "
+             "rules, unreadable rule file, trees with links, the same tree; Unpack; a bundle build) then the Pack under test, with the same and "
+             "a fresh Packer. (3) concurrency in a -race binary: 2-8 goroutines pack different (tree, rules) pairs 1-4 times each BEFORE any "
+             "sequential use in that process (member 0's rule file starts with '!', member 1 has none), each result compared with its "
+             "sequential baseline; a race report with a go-slug frame is a violation. Non-trivial = tree with links or ignore processing, a "
+             "non-empty history, or a concurrent round; distinct by case hash."),
+    "assumptions": ["the harness does not own the Go scheduler: interleavings are sampled", "cwd is process-global, spelling variants run sequentially"],
+    "quick": [rapid("spelling", "^TestPropSpelling$", 150, shards=3), rapid("history", "^TestPropHistory$", 250, shards=2),
+              rapid("concurrent", "^TestPropConcurrent$", 12, shards=5, race=True)],
+    "thorough": [rapid("spelling", "^TestPropSpelling$", 3000, shards=6), rapid("history", "^TestPropHistory$", 3000, shards=4),
+                 rapid("concurrent", "^TestPropConcurrent$", 120, shards=14, race=True)],
+}
